@@ -77,6 +77,15 @@ func c05Run(e *Env, concurrent bool) {
 	var w *UWorld
 	// recording handler; behaviour is a function of the path only
 	cfg.Handler = func(rw *responsewriter.ResponseWriter[*udpClient.Conn], r *pool.Message) {
+		if e.Pool.Enabled {
+			e.Pool.Hold(r, "request inside its handler")
+			snap := Snapshot(r)
+			e.Pool.CheckHandover(snap, "request handed to a handler")
+			defer func() {
+				e.Pool.CheckHeld(r, snap)
+				e.Pool.Unhold(r)
+			}()
+		}
 		q, _ := r.Options().Queries()
 		n := -1
 		for _, s := range q {
